@@ -29,7 +29,7 @@ type hdr struct {
 // mcase is one message pushed into hookaido.
 type mcase struct {
 	Sweep   string `json:"sweep"`
-	In      string `json:"in"`    // ingress | publish
+	In      string `json:"in"`    // ingress | publish | store (Store.Enqueue, as the MCP publish tool calls it)
 	Route   string `json:"route"` // std | small | fwd
 	Frame   string `json:"frame"` // cl | chunked (ingress only)
 	Hdrs    []hdr  `json:"hdrs"`  // header lines in arrival order (publish: the headers object)
@@ -37,6 +37,8 @@ type mcase struct {
 	BodyHex string `json:"body_hex,omitempty"`
 	Gen     string `json:"gen,omitempty"` // ff | nul | sp | mix
 	N       int    `json:"n,omitempty"`
+	Opt     bool   `json:"opt,omitempty"` // a header value that cannot travel in an HTTP header field (C0 control, DEL): the way in may refuse it
+	ID      string `json:"id,omitempty"`  // explicit message id (bounded-queue histories: an id that is already in the queue)
 }
 
 func (c mcase) body() []byte {
@@ -266,7 +268,7 @@ func compareHeaders(c mcase, lines []hdr, got map[string][]string, exact bool) [
 }
 
 func canonIfPublish(c mcase, n string) string {
-	if c.In == "publish" {
+	if c.In != "ingress" {
 		return canon(n)
 	}
 	return n
